@@ -125,6 +125,7 @@ Glu_alloc(
 	else fsupc = jcol;
 	*prev_next = Glu->map_in_sup[fsupc];
 	Glu->map_in_sup[fsupc] += num;
+	SLU_MT_VERIF_EVENT(SLU_EV_ALLOC, pnum, LUSUP, *prev_next, num, &jcol);
 
 #if 0
 	{
@@ -180,6 +181,7 @@ Glu_alloc(
 	    }
 	    *prev_next = nextu;
 	    Glu->nextu = new_next;
+	    SLU_MT_VERIF_EVENT(SLU_EV_ALLOC, pnum, mem_type, nextu, num, &jcol);
 
 	} /* end of critical region */
 	
@@ -223,6 +225,7 @@ Glu_alloc(
 	  }
 	  *prev_next = nextl;
 	  Glu->nextl = new_next;
+	  SLU_MT_VERIF_EVENT(SLU_EV_ALLOC, pnum, LSUB, nextl, num, &jcol);
 	  
 	} /* end of #pragama critical lock() */
 	
@@ -285,6 +288,7 @@ DynamicSetMap(
 	    XPAND_HINT("L supernodes", new_next, jcol, 6);
 	}
 	Glu->nextlu = new_next;
+	SLU_MT_VERIF_EVENT(SLU_EV_ALLOC_DYN, pnum, jcol, nextlu, num, Glu);
     } /* end of critical region */
 
 #if ( MACH==SUN )
